@@ -253,6 +253,12 @@ def bounded_seq(which):
                 m = am if rng.random() < 0.5 else -am
             if style == 'with-duplicates' or (n, m) not in nms:
                 nms.append((n, m))
+        if rng.random() < 0.25:
+            style = 'short'
+            pool = [(0, 0), (1, 0), (2, 0), (1, 1), (1, -1), (2, 2), (3, 1), (3, -1), (2, -2)] if which == 'Q2d_seq' else \
+                   [(0, 0), (2, 0), (1, 1), (1, -1), (2, 2), (3, 1), (3, -1), (2, -2), (4, 0)]
+            k = int(rng.integers(1, 4))
+            nms = [pool[int(i)] for i in rng.choice(len(pool), size=k, replace=False)]
         if style == 'descending-n':
             nms.sort(key=lambda p: -p[0])
         elif style in ('all-m0-shuffled', 'same-absm'):
@@ -271,6 +277,9 @@ def bounded_seq(which):
         check('mode-for-mode', all(np.allclose(np.asarray(a), np.asarray(b), rtol=1e-9, atol=1e-9) for a, b in zip(seq, one)))
     else:
         ns = sorted(set(int(v) for v in rng.integers(0, 12, nmodes)))
+        if rng.random() < 0.4:
+            # the short and late-starting lists where the unrolled first orders return early or are skipped
+            ns = [[0], [1], [2], [3], [0, 1], [1, 2], [0, 2], [0, 1, 2], [3, 5], [1, 4], [0, 1, 4], [int(rng.integers(0, 12))]][int(rng.integers(0, 12))]
         x = rng.uniform(-0.95, 0.95, shp)
         if which == 'Qbfs_seq':
             seq = get('prysm.polynomials.qpoly.Qbfs_seq')(ns, np.abs(x))
